@@ -1,11 +1,71 @@
 (** C03 — fixed-memory mode computes the same cut as line-at-a-time mode.  Statements only.
-    PARTIAL: the equality of the two outputs for every record is not proved; it is checked on
-    every run by the correspondence of both paths with their models and by the pair oracle
-    (-M against the same invocation without -M on the implementation).  Proved: the facts
-    below, and C04 (so the comparison never depends on chunking). *)
-From TucModel Require Import Base.Bytes Base.ListX Model.Bounds Model.Scan Model.Opt Model.CutBytes
-     Model.CutStr Model.FastLane Model.Stream Proofs.C04 Proofs.C03.
+    Proved in full over the model: for every option set -M accepts, every bounds list built
+    from parsed bounds and every input on whose records each closed range is wholly present
+    or wholly absent, -M gives exactly the stdout, the status and the completed records of
+    the same invocation without -M (through the general path; C02 carries it to the fast lane). *)
+From TucModel Require Import Base.Bytes Base.ListX Model.Bounds Model.BoundsParse Model.Scan Model.Opt
+     Model.CutBytes Model.CutStr Model.FastLane Model.Stream Spec.Fields Proofs.BoundsFacts Proofs.C06
+     Proofs.C04 Proofs.C03 Proofs.Plain Proofs.C03Full.
 Local Open Scope Z_scope.
+
+(** the whole statement *)
+Theorem C03_fixed_memory_equals_line_mode :
+  forall (o : opt) (so : sopt) (l0 : list bof) (input : bytes),
+    from_vec l0 = Some (o_bounds o) ->
+    Forall item_nz l0 -> Forall closed_ordered (bounds_only l0) -> no_adjacent_fillers l0 ->
+    stream_opt o = Some so -> N.eqb (s_delim so) (s_eol so) = false ->
+    Forall (fun r => r = [] \/ no_straddle (Z.of_nat (length (split_on (s_delim so) r))) (items (o_bounds o)))
+           (records (s_eol so) input) ->
+    Some (run_stream_whole so input) = read_and_cut_str o input.
+Proof. exact C03_main. Qed.
+
+(** one record at a time, anywhere in a chunk: the reader state after it included *)
+Theorem C03_each_record :
+  forall (o : opt) (so : sopt) (r rest : bytes) (cs : list bytes),
+    stream_opt o = Some so ->
+    Forall item_nz (items (o_bounds o)) ->
+    no_adjacent_fillers (items (o_bounds o)) -> bounds_only (items (o_bounds o)) <> [] ->
+    r <> [] -> bfree (s_eol so) r -> N.eqb (s_delim so) (s_eol so) = false ->
+    asc 0 (Z.of_nat (length (split_on (s_delim so) r))) (items (o_bounds o)) ->
+    rec_chunks so (Normal (s_items so) 1 false) false ((r ++ s_eol so :: rest) :: cs) []
+    = match cut_str o r with
+      | Some (ROk x) => RRecord x (push_rest rest cs)
+      | _ => RFail
+      end.
+Proof. exact C03_record. Qed.
+
+(** a final record without EOL is cut as if it were terminated *)
+Theorem C03_final_record_without_eol :
+  forall (so : sopt) (r : bytes) (its : list bof) (curr : Z) (out : bytes) (started : bool),
+    r <> [] -> bfree (s_eol so) r -> no_adjacent_fillers its -> 1 <= curr ->
+    rec_chunks so (Normal its curr false) started [r] out
+    = match rec_chunks so (Normal its curr false) started [r ++ [s_eol so]] out with
+      | RRecord x _ => RLast x
+      | other => other
+      end.
+Proof. exact last_record_without_eol. Qed.
+
+(** the static part of the domain is implied by what -M accepts *)
+Theorem C03_domain_is_only_about_the_input :
+  forall (n : Z) (its : list bof),
+    forward_bounds_ok its = true -> Forall item_nz its ->
+    Forall closed_ordered (bounds_only its) ->
+    Forall (fun b => br b = SCont -> blast b = true) (bounds_only its) ->
+    no_straddle n its -> asc 0 n its.
+Proof. exact static_domain. Qed.
+
+(** the reference: under plain options the general path prints, for each bound, its fields
+    joined by the (replacement) delimiter - also the output-loop half of C01 *)
+Theorem C03_reference_prints_the_requested_fields :
+  forall (o : opt) (d : byte) (line : bytes),
+    plain_opts o d -> o_trim o = None -> o_only_delimited o = false ->
+    line <> [] -> Forall item_nz (items (o_bounds o)) ->
+    cut_str o line
+    = Some (match spec_items (split_on d line) (o_fallback o) (o_join o) (rep_of o d) (items (o_bounds o)) with
+            | Some x => ROk (x ++ [o_eol o])
+            | None => RErr
+            end).
+Proof. exact general_plain_record. Qed.
 
 Theorem C03_reference_path_is_well_defined :
   forall (o : opt) (so : sopt), stream_opt o = Some so ->
@@ -48,6 +108,11 @@ Theorem C03_field_outside_the_pending_bound :
     print_bof so (Bound b :: its) curr piece false true = ([], Bound b :: its).
 Proof. exact stream_field_outside. Qed.
 
+Print Assumptions C03_fixed_memory_equals_line_mode.
+Print Assumptions C03_each_record.
+Print Assumptions C03_final_record_without_eol.
+Print Assumptions C03_domain_is_only_about_the_input.
+Print Assumptions C03_reference_prints_the_requested_fields.
 Print Assumptions C03_reference_path_is_well_defined.
 Print Assumptions C03_empty_record_fixed_memory.
 Print Assumptions C03_empty_record_line_mode.
